@@ -53,18 +53,22 @@ type Event map[string]interface{}
 
 // Result is what a worker reports.
 type Result struct {
-	ID       int        `json:"id"`
-	NF       int        `json:"nf"`
-	Sched    []Write    `json:"sched"`
-	Trace    []Event    `json:"trace"`
-	Obs      [][]string `json:"obs"`        // rendered versions at the quiescence after each write
-	ObsX     []string   `json:"obsx"`       // what else those registries show: "passes|global|messages|source maps|javascript"
-	Passes   []int      `json:"pass_calls"` // invocations of each registered parse pass
-	Disk     [][]string `json:"disk"`       // what the harness put on disk, after each write
-	Logs     []string   `json:"logs"`       // the raw log lines, for the replay case
-	Notes    []string   `json:"notes"`      // what the observations found wrong, in words
-	Trouble  string     `json:"trouble,omitempty"`
-	SettleUS []int64    `json:"settle_us,omitempty"`
+	ID      int        `json:"id"`
+	NF      int        `json:"nf"`
+	Sched   []Write    `json:"sched"`
+	Trace   []Event    `json:"trace"`
+	Obs     [][]string `json:"obs"`        // rendered versions at the quiescence after each write
+	ObsX    []string   `json:"obsx"`       // what else those registries show: "passes|global|messages|source maps|javascript"
+	Passes  []int      `json:"pass_calls"` // invocations of each registered parse pass
+	Disk    [][]string `json:"disk"`       // what the harness put on disk, after each write
+	Logs    []string   `json:"logs"`       // the raw log lines, for the replay case
+	Notes   []string   `json:"notes"`      // what the observations found wrong, in words
+	Trouble string     `json:"trouble,omitempty"`
+	// NoWatcher: inotify works in this process (own probe), WatchFiles(true) was
+	// called before the files were added, and yet the bundle under test has no
+	// inotify descriptor and no recompiler goroutine
+	NoWatcher bool    `json:"no_watcher,omitempty"`
+	SettleUS  []int64 `json:"settle_us,omitempty"`
 }
 
 // ModelMethod maps a harness method to the method of SoyWatch.
@@ -200,6 +204,8 @@ type driver struct {
 	res    *Result
 	ntmp   int
 	budget time.Duration
+	// passive: the bundle has no watcher at all; there is nothing to wait for
+	passive bool
 }
 
 // settle blocks until the system is certainly quiescent: both goroutines
@@ -208,6 +214,12 @@ type driver struct {
 // by the system calls of the harness and of the recompiler itself, so nothing
 // can be in flight when this holds.
 func (d *driver) settle() error {
+	if d.passive {
+		// no recompiler, no reader, no descriptor: give a hidden one 20 ms to
+		// show itself through the logger, then the state is final
+		time.Sleep(20 * time.Millisecond)
+		return nil
+	}
 	start := time.Now()
 	deadline := start.Add(d.budget)
 	for {
@@ -367,7 +379,21 @@ func RunJob(job Job) (res *Result) {
 		return fail("initial javascript %v", js)
 	}
 	if d.ifd, err = inotifyFD(); err != nil {
-		return fail("%v", err)
+		// tell "the sandbox has no inotify" (tool trouble) from "the bundle under
+		// test did not create its watcher" (behaviour): probe with a descriptor
+		// of our own, then look for the recompiler goroutine for a while
+		if perr := inotifyWorks(job.Dir); perr != nil {
+			return fail("%v; own inotify probe: %v", err, perr)
+		}
+		found := false
+		for i := 0; i < 50 && !found; i++ {
+			_, found = parked()
+			time.Sleep(10 * time.Millisecond)
+		}
+		if found || !strings.Contains(err.Error(), "no inotify descriptor") {
+			return fail("%v", err)
+		}
+		d.passive, res.NoWatcher = true, true
 	}
 	if err := d.settle(); err != nil {
 		return fail("initial: %v", err)
